@@ -44,6 +44,9 @@ func NewStore(dir string) (s *Store, err error) {
 	opts.ValueDir = badgerDir
 	opts.Logger = log.StandardLogger()
 	opts.Options.ValueLogFileSize = 1<<28 - 1
+	// A process killed within a write leaves a half-written last entry in the value log. The database refuses to be
+	// opened then, with all its acknowledged entries, unless it is allowed to cut off this last one.
+	opts.Options.Truncate = true
 
 	if dirErr := os.MkdirAll(badgerDir, 0700); dirErr != nil {
 		err = dirErr
